@@ -135,6 +135,58 @@ func contractLevel(o *Obl) bool {
 	return false
 }
 
+// BoundedSpec: a bounded check of one named clause against the real code (labelled bounded,
+// never counted among the discharged obligations).
+type BoundedSpec struct {
+	Name, File, Test, What string
+	Quick, Thorough       int
+}
+
+var boundedSpecs = map[string][]BoundedSpec{
+	"C18": {{Name: "parseMoney/ensures/dollartag", File: "c18_dollartag_test.go.txt", Test: "TestZZBoundedDollarTag",
+		What:  "$tag$ literal ends at the first repetition of $tag$: exhaustive over tags of 1..2 (3) letters from {t,a} and bodies up to the bound over {$,t,a,x,'}",
+		Quick: 5, Thorough: 7}},
+}
+
+type boundedResult struct {
+	Spec   BoundedSpec
+	Bound  int
+	OK     bool
+	Cases  string
+	Output string
+}
+
+func (pr *Program) runBounded(prop, tier string) []boundedResult {
+	var out []boundedResult
+	for _, bs := range boundedSpecs[prop] {
+		src, err := os.ReadFile(filepath.Join(verifDir, "bounded", bs.File))
+		if err != nil {
+			out = append(out, boundedResult{Spec: bs, Output: err.Error()})
+			continue
+		}
+		bound := bs.Quick
+		if tier == "thorough" {
+			bound = bs.Thorough
+		}
+		o, _ := runOverlayTest(pr.RepoDir, map[string]string{"zz_verif_bounded_test.go": string(src)}, "^"+bs.Test+"$", []string{fmt.Sprintf("VERIF_BOUND=%d", bound)}, 600)
+		r := boundedResult{Spec: bs, Bound: bound}
+		for _, l := range strings.Split(o, "\n") {
+			if strings.HasPrefix(l, "BOUNDED-OK") {
+				r.OK = true
+				r.Cases = strings.TrimSpace(strings.TrimPrefix(l, "BOUNDED-OK"))
+			}
+			if strings.HasPrefix(l, "BOUNDED-FAIL") {
+				r.Output = l
+			}
+		}
+		if !r.OK && r.Output == "" {
+			r.Output = clip(o, 1500)
+		}
+		out = append(out, r)
+	}
+	return out
+}
+
 func cmdCheck(args []string) {
 	if len(args) < 2 {
 		fmt.Fprintln(os.Stderr, "usage: vcgen check <property> <quick|thorough>")
@@ -233,6 +285,22 @@ func cmdCheck(args []string) {
 		}
 		lines = append(lines, fmt.Sprintf("VIOLATION property=%s replay=%s obligation=%q status=%s%s", prop, rp, o.Name, o.Status, suffix))
 	}
+	// bounded stand-ins
+	var boundedEv []map[string]interface{}
+	for _, br := range pr.runBounded(prop, tier) {
+		boundedEv = append(boundedEv, map[string]interface{}{"clause": br.Spec.Name, "what": br.Spec.What, "bound": br.Bound, "passed": br.OK, "cases": br.Cases, "label": "bounded (not counted as proved)"})
+		if !br.OK {
+			violations++
+			rp := filepath.Join(outDir(), "replays", prop, sanitize(br.Spec.Name)+"_bounded.json")
+			rb, _ := json.MarshalIndent(map[string]interface{}{"property": prop, "obligation": br.Spec.Name + " (bounded stand-in)", "output": br.Output, "reproduced_on_real_code": strings.HasPrefix(br.Output, "BOUNDED-FAIL")}, "", " ")
+			os.WriteFile(rp, rb, 0o644)
+			sfx := ""
+			if !strings.HasPrefix(br.Output, "BOUNDED-FAIL") {
+				sfx = " no-failing-input-found"
+			}
+			lines = append(lines, fmt.Sprintf("VIOLATION property=%s replay=%s obligation=%q status=bounded-check-failed%s", prop, rp, br.Spec.Name, sfx))
+		}
+	}
 	sort.Strings(lines)
 	seenLine := map[string]bool{}
 	for _, l := range lines {
@@ -312,7 +380,7 @@ func cmdCheck(args []string) {
 			"samples":                  samples,
 			"obligation_list":          recs,
 			"generator_errors":         genErrs,
-			"bounded":                  []string{},
+			"bounded":                  boundedEv,
 		},
 	}
 	os.MkdirAll(filepath.Join(outDir(), "evidence"), 0o755)
